@@ -537,8 +537,10 @@ func (b *blob) cacheChunkData(chunk region, r io.Reader, fr fetcher, allData map
 	defer cw.Close()
 
 	w := io.Writer(cw)
-	if _, ok := fetched[chunk]; ok {
-		w = io.MultiWriter(w, allData[chunk])
+	if dw, ok := allData[chunk]; ok {
+		// tee only into the writer of a requested chunk. "fetched" also records chunks
+		// the server sent without being asked for; those have no writer in allData.
+		w = io.MultiWriter(w, dw)
 	}
 
 	if _, err := io.CopyN(w, r, chunk.size()); err != nil {
